@@ -24,7 +24,7 @@ ASSUMPTIONS = ["whether a station forwards at all (greedy choice, PDR enforcemen
                "a duplicate verdict is only given while the reference DPL holds the SN and the source's LocTE cannot have expired (3 s margin)",
                "after a restart the restarted station's duplicate memory is legitimately empty"]
 EXPECTED_PROBES = ["dup-rejected", "forwarded:TSB", "forwarded:GBC", "forwarded:GAC", "forwarded:GUC", "forwarded:LSREQ", "forwarded:LSREP",
-                   "cbf-buffered", "cbf-dup-while-buffered", "rhl<=1-not-forwarded", "own-address-rejected", "sn-wrapped-injected", "replay-after-window"]
+                   "cbf-buffered", "cbf-dup-while-buffered", "cbf-moved-while-buffered", "rhl<=1-not-forwarded", "own-address-rejected", "sn-wrapped-injected", "replay-after-window"]
 
 
 def gen_plan(run_seed: int, tier: str) -> dict:
@@ -150,6 +150,26 @@ def gen_plan(run_seed: int, tier: str) -> dict:
             ops.append(o)
         else:
             ops.append({"op": "replay", "t": t, "tx": r.randint(0, 40), "to": r.randrange(n), "lat_us": r.randint(100, 30000)})
+    # moving stations (own PRNG stream, so that older plans keep their shape): position reports that carry a station out of / back
+    # into the destination areas, biased to land while a geo-broadcast is in flight or waiting in a CBF buffer
+    r2 = random.Random(run_seed ^ 0x6A0B1E)
+    if r2.random() < 0.45:
+        geo_ts = [o["t"] for o in ops if (o["op"] == "req" and o.get("type") in ("gbc", "gac")) or
+                  (o["op"] == "inject" and o["pkt"]["common"]["ht"] in (3, 4))]
+        for _ in range(r2.randint(1, 8)):
+            i = r2.randrange(n)
+            if geo_ts and r2.random() < 0.7:
+                tm = r2.choice(geo_ts) + r2.choice([r2.randint(200, 6000), r2.randint(1000, 60_000), r2.randint(1000, 120_000)])
+            else:
+                tm = r2.randint(0, max(t, 1))
+            if r2.random() < 0.6:
+                dist = r2.uniform(1800, 6000)      # clearly outside every area used above
+            else:
+                dist = r2.uniform(0, 150)          # back to (about) where it started
+            ang = r2.uniform(0, 2 * math.pi)
+            la, lo = rc.offset_position(stations[i]["pos"][0], stations[i]["pos"][1], math.sin(ang) * dist, math.cos(ang) * dist)
+            ops.append({"op": "gnss", "t": tm, "st": i, "lat": la, "lon": lo, "speed": round(r2.uniform(0, 30), 2), "track": round(r2.uniform(0, 359.9), 1)})
+        ops.sort(key=lambda o: o["t"])
     lossy = r.random() < 0.4
     cfg = {"t0_us": 1_767_225_600_000_000 + r.randrange(0, 86_400_000) * 1000, "net_seed": r.getrandbits(32), "latency_us": [100, 2000],
            "fifo": not lossy, "topology": links, "run_limit_us": t + 3_000_000, "fault_class": "lossy" if lossy else "none",
@@ -250,6 +270,11 @@ class C06Monitor(Monitor):
     def after_op(self, sim, rec):
         if rec["op"]["op"] == "restart":
             self.restarts += 1
+        if rec["op"]["op"] == "gnss" and not rec.get("skipped"):
+            sim.probe("station-moved")
+            st = sim.stations[rec["op"]["st"]]
+            if any(k[0] == st.idx and k[1] == st.gen and c["dup"] is None and sim.kernel.now_us - c["first"] < 100_000 for k, c in self.cbf.items()):
+                sim.probe("cbf-moved-while-buffered")
 
     def on_end(self, sim):
         n = sum(1 for s in sim.stations if s.role == "stack")
